@@ -493,4 +493,20 @@ def FMF.emplace (m : FMF) (pf : PF) (x : Nat) : Option FMF :=
   (m.trie.insert pf).map (fun r => ⟨r.1, m.items ++ [x]⟩)
 def FMF.filter (m : FMF) (f : List Nat) : List Nat := (m.trie.filter f).map (fun id => m.items.getD id 0)
 
+/-! #### the rest of FilterMap's interface -/
+
+/-- `FilterMap(TrieType t, ItemsContainer c)`: outer `none` = UB inside `Trie::size`; inner `none` = throws `invalid_argument`
+    (`ids_.size() != items_.size()`) -/
+def FM.ofTrie (firstBound : Bool) (t : T) (items : List Nat) : Option (Option FM) :=
+  (t.size firstBound).map (fun n => if n != items.length then none else some ⟨t, items⟩)
+def FMF.ofTrie (t : FT) (items : List Nat) : Option FMF :=
+  if t.size != items.length then none else some ⟨t, items⟩
+/-- `operator[](id)`: `items_[id]` (`none` = outside the container) -/
+def FM.get (m : FM) (id : Nat) : Option Nat := m.items[id]?
+/-- `begin() … end()` / `getContainer()`: all items in emplacement order -/
+def FM.all (m : FM) : List Nat := m.items
+/-- reading the `IndexMap` a filter returns, with bounds: `none` where an id leaves the item container -/
+def FM.filterChecked (firstBound : Bool) (m : FM) (q : PF) : Option (List (Option Nat)) :=
+  (m.trie.filter firstBound q).map (fun ids => ids.map (fun id => m.items[id]?))
+
 end AITB.Trie
